@@ -486,6 +486,15 @@ def guards():
     g("acos alias", lambda ns, x: ns.acos(x * 0.3), (3,))
     g("atan2 alias", lambda ns, x: ns.atan2(x, 1.5), (3,))
     g("matrix_transpose", lambda ns, x: ns.matrix_transpose(x), (2, 3))
+    # inverse real FFTs whose OUTPUT length is odd (no rule): the length spelled out, or "the whole axis" (-1, NumPy >= 2)
+    g("irfft n odd", lambda ns, x: ns.fft.irfft(x, n=5), (3,))
+    g("irfft2 s=(-1,-1) odd", lambda ns, x: ns.fft.irfft2(x, s=(-1, -1)), (3, 3))
+    g("irfft2 s=(-1,-1) odd wide", lambda ns, x: ns.fft.irfft2(x, s=(-1, -1)), (2, 5))
+    g("irfftn s=(-1,-1) axes odd", lambda ns, x: ns.fft.irfftn(x, s=(-1, -1), axes=(0, 1)), (3, 3))
+    g("irfftn s=(-1,) axes=(1,) odd", lambda ns, x: ns.fft.irfftn(x, s=(-1,), axes=(1,)), (2, 3))
+    g("irfft2 s=(-1,-1) even", lambda ns, x: ns.fft.irfft2(x, s=(-1, -1)), (3, 4))
+    g("irfft2 s=(3,3) odd", lambda ns, x: ns.fft.irfft2(x, s=(3, 3)), (3, 3))
+    g("rfft2 s=(-1,-1)", lambda ns, x: ns.real(ns.fft.rfft2(x, s=(-1, -1))), (3, 3))
     g("hfft", lambda ns, x: ns.fft.hfft(x), (4,))
     g("fftfreq-scaled", lambda ns, x: ns.fft.fftshift(x * ns.fft.fftfreq(4)), (4,))
     return G
@@ -560,6 +569,72 @@ def guard_body(c):
         return ok(nontrivial=True, key=name + mode, labels=["guard", "supported_and_correct"], sample=sample)
     kind = "silent_constant" if got == 0.0 and abs(dv) > 1e-6 else "wrong_value"
     return fail(kind, f"{name} ({mode}): derivative {got!r} but NumPy gives {dv!r} - neither raised nor correct", f"C15|guard|{name}|{mode}", sample=sample)
+
+
+def foreign_body(c):
+    """Input TYPES autograd has no box for - ndarray subclasses whose operations mean something else than the plain array's (numpy.ma.MaskedArray:
+    reductions skip masked entries; numpy.matrix: `*` is the matrix product, results stay 2-D) - handed to a derivative operator: it raises, or the
+    derivative is that of the function on THAT type (central differences of the plain call, perturbing the underlying data and rebuilding the type)."""
+    import autograd
+    import autograd.numpy as anp
+
+    vseed = c.seed()
+    typ = c.choice(["masked", "masked", "matrix"])
+    fname = c.choice(["mean", "sum_sq", "mul_self", "sum_sin", "max", "dot_self", "std"])
+    op = c.choice(["grad", "value_and_grad", "make_jvp", "elementwise_grad", "make_vjp"])
+    shape = (c.int(2, 3), c.int(2, 3)) if typ == "matrix" else c.choice([(4,), (2, 3)])
+    if typ == "matrix" and fname in ("mul_self", "dot_self"):
+        shape = (shape[0], shape[0])
+    (data,), _ = values.generic(vseed, [shape], 0.3, 1.7)
+    mask = onp.zeros(shape, dtype=bool)
+    mask.reshape(-1)[vseed % mask.size] = True
+    build = (lambda d: onp.ma.array(d, mask=mask)) if typ == "masked" else (lambda d: onp.matrix(d))
+    fns = {"mean": lambda ns, t: ns.mean(t), "sum_sq": lambda ns, t: ns.sum(t ** 2), "mul_self": lambda ns, t: ns.sum(t * t), "sum_sin": lambda ns, t: ns.sum(ns.sin(t)),
+           "max": lambda ns, t: ns.max(t), "dot_self": lambda ns, t: ns.sum(ns.dot(t, t.T)), "std": lambda ns, t: ns.std(t)}
+    fn = fns[fname]
+    sample = {"type": typ, "fn": fname, "op": op, "shape": list(shape), "vseed": vseed}
+    c.features.update(type=typ, fn=fname, op=op)
+    try:
+        with warnings.catch_warnings():
+            warnings.simplefilter("ignore")
+            plain = lambda d: float(onp.asarray(fn(onp, build(d))))
+            plain(data)
+            h = 1e-6
+            num = onp.zeros(shape)
+            for idx in onp.ndindex(*shape):
+                e = onp.zeros(shape)
+                e[idx] = h
+                num[idx] = (plain(data + e) - plain(data - e)) / (2 * h)
+    except Exception as e:
+        return Outcome("numpy_rejects", detail=f"{type(e).__name__}: {e}"[:100], sample=sample)
+    x = build(data)
+    v = values.direction(vseed, shape, 9)
+    try:
+        with warnings.catch_warnings():
+            warnings.simplefilter("ignore")
+            F = lambda t: fn(anp, t)
+            if op == "grad":
+                res = autograd.grad(F)(x)
+            elif op == "value_and_grad":
+                res = autograd.value_and_grad(F)(x)[1]
+            elif op == "elementwise_grad":
+                res = autograd.elementwise_grad(F)(x)
+            elif op == "make_vjp":
+                res = autograd.make_vjp(F)(x)[0](1.0)
+            else:
+                res = autograd.make_jvp(F)(x)(v)[1]
+    except Exception:
+        return ok(nontrivial=True, key=json.dumps([typ, fname, op]), labels=["foreign", "raised", "type=" + typ], sample=sample)
+    try:
+        ra = onp.asarray(onp.ma.getdata(res) if isinstance(res, onp.ma.MaskedArray) else res, dtype=float)
+        got = float(onp.sum(ra)) if op == "make_jvp" else float(onp.sum(ra.reshape(shape) * v))
+    except Exception as e:
+        return fail("wrong_shape", f"{op} of {fname} on a {typ} value returned {res!r:.120} - neither raised nor a derivative", f"C15|foreign|{typ}|{fname}", sample=sample)
+    want = float(onp.sum(num * v))
+    if abs(got - want) <= 1e-5 * max(1.0, abs(want)):
+        return ok(nontrivial=True, key=json.dumps([typ, fname, op]), labels=["foreign", "supported_and_correct", "type=" + typ], sample=sample)
+    return fail("wrong_value", f"{op} of {fname} on a {typ} value: pairing with a direction gives {got!r}, the function on that type has {want!r} - neither raised nor correct",
+                f"C15|foreign|{typ}|{fname}", sample=sample)
 
 
 # ---- integer arrays as the differentiated argument: raise, or return the derivative untruncated -----------------------------------------
@@ -649,6 +724,7 @@ PROP = Prop("C15", [
     Test("contracts", contract_body, quick=150, thorough=600, shard_size=50),
     Test("guards", guard_body, quick=800, thorough=8000, shard_size=100),
     Test("int_input", int_input_body, quick=1500, thorough=10000, shard_size=150),
+    Test("foreign_inputs", foreign_body, quick=400, thorough=2000, shard_size=100),
 ], RULE, assumptions=[
     "a callable is accused only for argument templates NumPy accepts from the typed pools; callables with no applicable template are listed, not vouched for",
     "Ridders derivative of the harness-scalarised raw-NumPy output is the reference; numpy.random reseeded before every evaluation",
